@@ -147,7 +147,7 @@ func (ss schedsim) Gen(prop, tier string, ts *sim.Tapes) *Case {
 		var ex schedExtra
 		nf := 1 + ft.Intn(3)
 		for i := 0; i < nf; i++ {
-			ex.Faults = append(ex.Faults, sim.FaultPlan{K: ft.Intn(5*ntx + 4), Kind: []string{"eio", "short", "enospc"}[ft.Intn(3)]})
+			ex.Faults = append(ex.Faults, sim.FaultPlan{K: ft.Intn(5*ntx + 4), Kind: []string{"eio", "short", "enospc", "short72"}[ft.Intn(4)]})
 		}
 		c.Extra, _ = json.Marshal(ex)
 	}
